@@ -126,10 +126,10 @@ class Ctx:
         self.notes.append(text)
 
     def check_floors(self) -> None:
-        failing = {f.rule for f in self.findings}
+        failing = {f.rule for f in self.findings} | {f.rule.split("-")[0] for f in self.findings}
         for rule, n in self.floors.items():
             got = self.counts.get(rule, 0)
-            if rule in failing:
+            if rule in failing or rule.split("-")[0] in failing:
                 continue  # a reported violation of the rule explains missing follow-up instances
             if got < n:
                 raise AnalysisError(
